@@ -18,10 +18,14 @@
 (* The policy is the conjunction of the clauses Inv* below, evaluated on   *)
 (* the state in which the call was made.                                   *)
 (*                                                                         *)
-(* Mode = "policy": Call is enabled exactly for the outcomes the policy    *)
-(*   permits (weakest guard; TLC checks it is sufficient) and TLC writes   *)
-(*   the matrix (kind x session state x role x current permission x active *)
-(*   x selection x outcome -> permitted) of every reachable combination.   *)
+(* Mode = "policy": after every history of management steps every         *)
+(*   single-effect outcome is tried on every slot; `permitted` records the *)
+(*   policy's verdict (only permitted calls are behaviours of the          *)
+(*   specification; the invariants are conditional on it) and TLC prints   *)
+(*   the matrix (kind x session state x selection x role x current         *)
+(*   permission x active x effect x creds -> permitted) of every reachable *)
+(*   combination.  OpenSession / Login / UseDatabase are granted exactly   *)
+(*   when the policy permits the grant (weakest guard).                    *)
 (* Mode = "code": the outcome is decided by the transcription of the Go    *)
 (*   gate (getDBFromCtx, methodsPermissions / maintenanceMethods, the      *)
 (*   session manager and the token login list); the Q* constants switch    *)
@@ -146,6 +150,15 @@ RowOutcomes ==
   {Out(TRUE, FALSE, FALSE, {e}) : e \in Effects} \cup
   {Out(TRUE, FALSE, TRUE, {e}) : e \in {x \in Effects : x.k = "auth"}} \cup
   {Out(TRUE, TRUE, FALSE, {}), Out(TRUE, FALSE, FALSE, {}), Out(FALSE, TRUE, FALSE, {})}
+
+\* sanity of the policy itself (constant level, checked by every TLC run): it is monotone in the permission, and
+\* nothing is permitted to a slot that is not valid that would be forbidden to a valid one
+PermMaps == {[d \in Dbs |-> IF d = "own" THEN p ELSE "none"] : p \in Roles \ {"SysAdmin"}} \cup {[d \in Dbs |-> "SysAdmin"]}
+Leq(m1, m2) == \A d \in Dbs : Rank(m1[d]) <= Rank(m2[d])
+Rec(st, m, a, out) == [sv |-> [kind |-> "session", st |-> st, sel |-> "own", ep |-> 0], perm |-> m, active |-> a, out |-> out]
+ASSUME \A out \in RowOutcomes, a \in BOOLEAN, m1 \in PermMaps, m2 \in PermMaps :
+          /\ (Leq(m1, m2) /\ PolicyOK(Rec("valid", m1, a, out))) => PolicyOK(Rec("valid", m2, a, out))
+          /\ \A st \in SessStates \ {"valid"} : PolicyOK(Rec(st, m1, a, out)) => PolicyOK(Rec("valid", m1, a, out))
 
 -----------------------------------------------------------------------------
 (* transcription of the Go gate (code mode)                                *)
